@@ -4,6 +4,10 @@ Inputs are enumerated, and where possible certified invalid, by TLC on explicit 
   (a) spec/Total.tla       every string of <= N character classes (13 classes of spec/Scan.tla) x representative bytes
   (b) spec/Mutants.tla     token- and character-level corruptions of valid texts; spec/Directives.tla directive soups;
       spec/Stress.tla      20 000-byte lines, nesting depth 2 000, 256 errors
+      spec/Macros.tla      programs of a macro calculus (definitions name(params) ==> body, one use, scopes): expansion
+                           that does not terminate, wrong argument count, unreduced macro function are certified invalid
+      spec/Calls.tla       applications of functions with positional / defaulted / keyword parameters, overloads and
+                           multiple values with one defect; certified invalid when no signature accepts them
   (c) spec/TotalFile.tla   seeded random bytes / printable soups / token soups, judged by the same SrcText!Judge
 Every text is compiled by the compiler built from the working tree (one process per text, hook H3 trace) and every
 run is judged by TLC as a behaviour of spec/TraceTotal.tla (TraceDriver + fault + certificates): it ends in Exit within
@@ -22,6 +26,8 @@ sys.path.insert(0, os.path.join(vlib.VERIF, "gen"))
 import driver_trace as dt      # noqa: E402
 import c07_run as cr           # noqa: E402
 import c07_inputs as ci        # noqa: E402
+import c07_macros as cmac      # noqa: E402
+import c07_calls as ccall      # noqa: E402
 
 META = {
     "title": "The compiler is total on arbitrary source text and reports honestly",
@@ -60,8 +66,12 @@ FINDING_TEXTS = {
                         b'{if false then 13@SI}(#(g10))}\n', []),
 }
 
-TIME_BOUND = {"known": 5, "enum": 3, "random": 10, "dirs": 10, "mutant": 10, "stress": 120}
-VLIMIT_KB = {"known": 1000000, "enum": 64000, "random": 1000000, "dirs": 1000000, "mutant": 1500000, "stress": 3000000}
+TIME_BOUND = {"known": 5, "enum": 3, "random": 10, "dirs": 10, "mutant": 10, "stress": 120, "macro": 10, "call": 10}
+VLIMIT_KB = {"known": 1000000, "enum": 64000, "random": 1000000, "dirs": 1000000, "mutant": 1500000, "stress": 3000000,
+             "macro": 1500000, "call": 1500000}
+# stack bound (KB) of a class: an expansion that does not terminate exhausts a small stack in milliseconds, the default one
+# in seconds (the cost grows with the square of the depth); the texts of the class are a few lines long
+STACK_KB = {"macro": 1024}
 MAX_REPORT = 25
 
 
@@ -127,7 +137,8 @@ def run_family(chk, build, inputs, stats, label, jobs, hooks=True, env_extra=Non
         runs = []
         for cls, ins in by_cls.items():
             runs += cr.run_inputs(build, ins, jobs=jobs, timeout=TIME_BOUND[cls], hooks=hooks, env_extra=env_extra,
-                                  vlimit_kb=None if env_extra and ("ASAN_OPTIONS" in env_extra) else VLIMIT_KB[cls], tag="c07" + cls)
+                                  vlimit_kb=None if env_extra and ("ASAN_OPTIONS" in env_extra) else VLIMIT_KB[cls], tag="c07" + cls,
+                                  stack_kb=STACK_KB.get(cls))
         t1 = time.time()
         verdicts, st = cr.validate(runs, chunk=max(200, min(1500, len(runs) // (2 * tlc_parallel) + 1)), parallel=tlc_parallel,
                                    timeout=900)
@@ -147,6 +158,8 @@ def run_family(chk, build, inputs, stats, label, jobs, hooks=True, env_extra=Non
         rejected += [(r, v) for r, v in zip(runs, verdicts) if not v.ok]
         if label == "mutant controls":
             keep = runs
+        elif label == "call":       # the controls of the rendering
+            keep = keep + [r for r in runs if r.inp.label.get("control")]
         elif not keep:
             keep = runs[:3] + runs[-1:]
     chk.traces += s["runs"]
@@ -180,6 +193,10 @@ def _base_key(r, v):
         key["via"] = ev.get("via", "")
     if inp.cls == "mutant":
         key["mutation"] = inp.label.get("mutation")
+    if inp.cls == "call":
+        key["defect"] = inp.label.get("defect")
+    if inp.cls == "macro":
+        key["form"] = inp.name[6]       # "ap" alone, "ao" in a typed context, "host" inside a valid text
     return key
 
 
@@ -298,7 +315,11 @@ def run(chk, tier):
                 "and N=3 variants 2,3; thorough N=5 variant 1, N=4 variants 2,3), (b) every mutation that Mutants.tla enumerates "
                 "(del/dup/swap/ins token, del/ins bracket, indent change, delete quote, insert NUL/0xE9/0x80/_/0x01/quote, cut) "
                 "at the sampled positions of each valid text, every directive soup of <= 3 (quick) / 4 (thorough) lines, the "
-                "size-stress family, (c) seeded random texts; each compiled once and its trace judged by TLC")
+                "size-stress family, every macro program that Macros.tla exports (1 definition: all shapes of level 3; 2-4 "
+                "definitions: strided; alone with -Fap, every 4th in a typed context, every 9th certified one inside a valid "
+                "text), every application that Calls.tla exports (signature <= 4 parameters x defaults x positional/keyword "
+                "split x overload context x one defect; strided in the quick tier), (c) seeded random texts; each compiled "
+                "once and its trace judged by TLC")
     chk.exhaustive = True
     chk.assumptions += [
         "time bound per run: %s seconds by input class; address-space bound %s KB (a run that exceeds either is a Hang / fault)" % (TIME_BOUND, VLIMIT_KB),
@@ -311,6 +332,12 @@ def run(chk, tier):
         "thorough: class (a) up to length 4 also runs under a sanitizer build (-fsanitize=address links but cannot run: the conservative "
         "collector scans stack and data at the first allocation; -fsanitize=bounds is used instead)",
         "command lines are valid and fixed per class (-Fao; -Mno-emax for the many-errors texts; foamlib paths for corpus texts)",
+        "macro programs: invalidity is certified by Macros.tla only (expansion that needs its own result, wrong number of macro "
+        "arguments, unreduced macro function; in a typed context also a macro name used outside the reach of its definition, "
+        "which the rendering gives no other meaning); nothing is certified when a visible name is defined twice; stack bound %s KB" % STACK_KB["macro"],
+        "call shapes: invalidity is certified by Calls.tla only (no visible signature accepts the application and returns what the "
+        "context receives); arguments are variables of exactly one type, so no literal overloading; keyword-before-positional "
+        "alone is not certified (the compiler binds positional arguments by their place)",
     ]
 
     only = set(x for x in os.environ.get("C07_ONLY", "").split(",") if x)      # development aid: a subset of the families
@@ -334,6 +361,8 @@ def run(chk, tier):
     f_dirs = ex.submit(ci.dirs_family, chk, d, dirlen)
     f_stress = ex.submit(ci.stress_family, chk, d)
     f_rand = ex.submit(ci.random_family, chk, d, rng, nrandom, 3 if tier == "quick" else 12)
+    f_mac = ex.submit(cmac.family, chk, d, tier, chk.seed, texts)
+    f_call = ex.submit(ccall.family, chk, d, tier, chk.seed)
     known_inputs = [cr.Input("known", k, t_, args=a_) for k, (t_, a_) in sorted(FINDING_TEXTS.items())]
     f_known = ex.submit(ci.rejudge, chk, d, known_inputs, 2)
     stats["inputs"] = {"valid_texts": len(texts)}
@@ -364,6 +393,16 @@ def run(chk, tier):
     go("dirs", pick("dirs", f_dirs.result(), 20))
     go("stress", pick("stress", f_stress.result(), 2))
     go("random", pick("random", f_rand.result(), 20))
+    go("macro", pick("macro", f_mac.result(), 40))
+    # the applications without defect are the controls of the rendering: they must compile
+    call_inputs = pick("call", f_call.result(), 40)
+    call_runs = go("call", call_inputs)
+    bad_controls = [r for r in call_runs if r.inp.label.get("control") and (r.rc != 0 or r.timeout)]
+    stats["call_controls"] = {"run": sum(1 for r in call_runs if r.inp.label.get("control")), "failed": len(bad_controls)}
+    if len(bad_controls) > max(3, stats["call_controls"]["run"] // 10):
+        raise vlib.MachineryError("Calls: %d of %d applications that the model accepts do not compile, first:\n%s\n%s" % (
+            len(bad_controls), stats["call_controls"]["run"], bad_controls[0].inp.data.decode(errors="replace"),
+            bad_controls[0].stdout[-600:].decode(errors="replace")))
     mut_inputs = f_mut.result()
     stats["inputs"]["tlc_wall_all_s"] = round(time.time() - t, 1)
     ex.shutdown()
